@@ -1,6 +1,6 @@
 (* C16 — Integer text conversion is exact; out-of-range input is an error.
    Only statements, each closed by a lemma from Proofs/, and Print Assumptions. *)
-From Coq Require Import NArith ZArith List Bool.
+From Coq Require Import NArith ZArith List Bool Lia ZifyBool ZifyN.
 From GJ Require Import Base.Bytes Base.Word64 Gen.Tables Model.Int
   Proofs.IntEncP Proofs.IntDecP Proofs.IntScanP.
 Import ListNotations.
@@ -79,3 +79,27 @@ Proof. vm_compute. reflexivity. Qed.
 Example C16_ex_overu64 :
   unmarshal_int false 64 [49;56;52;52;54;55;52;52;48;55;51;55;48;57;53;53;49;54;49;54] = URes true None.
 Proof. vm_compute. reflexivity. Qed.
+
+(* stream mode (Decoder.Decode): the verdict is Unmarshal's, and nothing is stored that Unmarshal does not store;
+   a number with a fraction or an exponent stores nothing at all *)
+Theorem C16_stream_agrees_with_buffer : forall signed bits data,
+  match unmarshal_int signed bits data, unmarshal_int_stream signed bits data with
+  | URes e st, URes e' st' => e' = e /\ (st' = st \/ st' = None)
+  | UStuck, UStuck => True
+  | _, _ => False
+  end.
+Proof.
+  intros signed bits data. unfold unmarshal_int_stream.
+  destruct (int_decode_byte signed (data ++ [0])) as [| |rest|num rest] eqn:E;
+    try (destruct (unmarshal_int signed bits data); [exact I|split; [reflexivity|left; reflexivity]]).
+  destruct (float_tail rest) eqn:F; [|destruct (unmarshal_int signed bits data); [exact I|split; [reflexivity|left; reflexivity]]].
+  unfold unmarshal_int. rewrite E.
+  assert (V : validate_end rest = Some false).
+  { destruct rest as [|c r]; [discriminate F|]. cbn [float_tail] in F. cbn [validate_end].
+    assert (W : is_ws c = false) by (unfold is_ws; lia). rewrite W.
+    assert (Z0 : c =? 0 = false) by lia. rewrite Z0. reflexivity. }
+  destruct (if signed then parse_int num else parse_uint num); [split; [reflexivity|left; reflexivity]|].
+  destruct (in_range signed bits z); [|split; [reflexivity|left; reflexivity]].
+  rewrite V. cbn [negb]. split; [reflexivity|right; reflexivity].
+Qed.
+Print Assumptions C16_stream_agrees_with_buffer.
